@@ -1,12 +1,29 @@
 (* C08 -- a machine holds <= work_capacity items, each for exactly its processing delay.
-   Proved here: the worker-slot resource (simpy.Resource model) never has more users than its
-   capacity, whatever sequence of requests / releases / kernel callbacks occurs; a delay draw
-   advances the node's delay stream by exactly one.  The timing statements (offer = pull + delay,
+   Proved here: in every reachable world of every factory configuration no node has more busy
+   worker slots than its work_capacity (C08_worker_slots_bounded_everywhere, lifted through every
+   process block in theories/Factory/FactoryRes.v); the worker-slot resource (simpy.Resource model)
+   never has more users than its capacity, whatever sequence of requests / releases / kernel
+   callbacks occurs; a delay draw advances the node's delay stream by exactly one.  The timing statements (offer = pull + delay,
    late only if blocked) are carried by the executable factory model, which is compared
    trace-exactly with the real classes; they are not proved for every configuration -- partial. *)
 From Coq Require Import List ZArith Bool Arith Lia.
 From FV Require Import Kernel World Factory.
+From FV Require FactoryInv FactoryRes.
 Import ListNotations.
+
+(* every configuration (nodes, edges, construction order) whose nodes start with the resource the
+   library creates -- simpy.Resource(capacity = work_capacity), no user -- and every number of
+   kernel steps: the resource keeps that capacity and never has more users than work_capacity *)
+Theorem C08_worker_slots_bounded_everywhere :
+  forall nodes edges order n, Forall FactoryRes.NRok nodes ->
+  forall i nd, nth_error (wnodes (FactoryInv.iter_fstep n (mk_world nodes edges order))) i = Some nd ->
+    r_cap (nres nd) = nwcap nd /\ (length (r_users (nres nd)) <= nwcap nd)%nat.
+Proof. exact FactoryRes.worker_slots_bounded_everywhere. Qed.
+Print Assumptions C08_worker_slots_bounded_everywhere.
+
+Theorem C08_fresh_node_ok : forall nd, nres nd = res_init (nwcap nd) -> FactoryRes.NRok nd.
+Proof. exact FactoryRes.fresh_node_ok. Qed.
+Print Assumptions C08_fresh_node_ok.
 
 Theorem C08_slots_request : forall k rid r k' r' q, res_request k rid r = Some (k', r', q) -> RInv r -> RInv r'.
 Proof. exact res_request_inv. Qed.
